@@ -125,6 +125,10 @@ class Slice(RowFilter):
                 new_stop = self.stop
             else:
                 new_stop = min(self.stop, next.stop + self.start)
+        if new_stop is not None:
+            # The second window may lie entirely beyond the first one; the
+            # composition is then empty rather than invalid.
+            new_start = min(new_start, new_stop)
         return Slice(new_start, new_stop)
 
     def applied_min_rows(self, target: Relation) -> int:
